@@ -183,7 +183,7 @@ fn run(args: &Args) -> i32 {
         let fns: Vec<_> = reg.fns.iter().filter(|e| only.as_deref().map(|o| o == e.label).unwrap_or(true)).filter(|e| !memcheck || is_stringish(e)).cloned().collect();
         let fns: Vec<_> = if memcheck { fns.into_iter().step_by(8).collect() } else { fns };
         rep.count("scalar.functions-in-scope", fns.len() as u64);
-        let max_groups = if memcheck { 1 } else { args.bound("scalar_groups", 4, 10) as usize };
+        let max_groups = if memcheck { 1 } else { args.bound("scalar_groups", 4, 12) as usize };
         vcommon::par::run(args.workers, fns.iter(), |e| {
             let n = e.udf.name();
             let opts = if ALLOC_BY_INT.iter().any(|k| n == *k || n.ends_with(k)) { PoolOpts { int_cap: Some(2000), small_time: true } } else { PoolOpts::default() };
@@ -234,8 +234,8 @@ fn run(args: &Args) -> i32 {
 
     // ---------------------------------------------------------------- tables, plans, streams
     if want("table") && only.is_none() {
-        let n_q = if memcheck { 12 } else { args.bound("queries", 240, 4000) };
-        let n_p = if memcheck { 8 } else { args.bound("plans", 120, 2000) };
+        let n_q = if memcheck { 12 } else { args.bound("queries", 240, 8000) };
+        let n_p = if memcheck { 8 } else { args.bound("plans", 120, 4000) };
         let gcfg = GenCfg::default();
         vcommon::par::run(args.workers, 0..n_q, |i| {
             let systematic = i < n_q / 2;
